@@ -28,6 +28,14 @@ def _obj_of(ip, st, v):
     """Resolve a GcPtr argument (by value, or behind &self / &mut self) to an object id."""
     if v[0] == "obj":
         return v[1]
+    if v[0] == "adt":
+        # pointer newtypes (GcPtr(NonNull(..)), Gc { ptr, .. }): the unique object leaf
+        leaves = [x for x in v[3] if isinstance(x, tuple) and x and x[0] in ("obj", "adt", "ref")]
+        for x in leaves:
+            try:
+                return _obj_of(ip, st, x)
+            except I.InterpError:
+                continue
     if v[0] == "ref":
         if v[1][0] == "H":
             return v[1][1]
@@ -137,12 +145,16 @@ class GcModel:
             return out
         if d in ("core::ops::function::FnOnce::call_once", "core::ops::function::FnMut::call_mut",
                  "core::ops::function::Fn::call"):
-            st.event("callback", "")
+            snap = self.snapshot(st) if ("ctx",) in st.mem else {}
+            st.event("callback", snap.get("phase"), snap.get("root_needs_trace"))
             out = [(st, "ret", TOP)]
             if self.allow_panic:
                 s2 = st.fork()
                 out.append((s2, "panic", "callback"))
             return out
+        if d == "barrier::Unlock::unlock_unchecked":
+            st.event("unlocked")
+            return [(st, "ret", ("valref", "?"))]
         return NotImplemented
 
     # ------------------------------------------------------------------ primitives
@@ -266,6 +278,56 @@ class GcModel:
         def total_gc_count(ip, st, args, info):
             return [(st, "ret", TOP)]
 
+        def as_ref(ip, st, args, info):
+            oid = _obj_of(ip, st, args[0])
+            o = st.objs[oid]
+            if o.get("freed") or o.get("dropped") or not o["live"]:
+                st.event("deref_of_dead_value", oid)
+            st.event("value_ref", oid)
+            return [(st, "ret", ("valref", oid))]
+
+        def cell_store(name):
+            def h(ip, st, args, info):
+                st.event("cell_store", name)
+                return [(st, "ret", TOP)]
+            return h
+
+        def once_set(ip, st, args, info):
+            # OnceCell::set: Ok(()) (stored) or Err(value) (already initialised)
+            s2 = st.fork()
+            st.event("cell_store", "OnceCell::set")
+            return [(st, "ret", adt("core::result::Result", 0, (UNIT,))),
+                    (s2, "ret", adt("core::result::Result", 1, (args[1],)))]
+
+        def once_get_or_init(ip, st, args, info):
+            # already initialised: closure not called; otherwise closure runs, then the value is stored
+            s2 = st.fork()
+            s2.event("once_already_init")
+            f = args[1]
+            body_key = None
+            if f[0] == "adt" and str(f[1]).startswith("closure:"):
+                cdef = f[1][len("closure:"):]
+                ks = m.prog.seed_n.get(norm(cdef))
+                body_key = ks[0] if ks else None
+            out = [(s2, "ret", ("valref", "?"))]
+            if body_key:
+                env = st.new_alloc("env", f)
+                body = m.prog.bodies[body_key]
+                envt = m.prog.ty(body["locals"][1])
+                a0 = ref(env, ()) if envt.get("k") == "ref" else f
+                st.event("once_init_closure")
+                out.append((st, "call", (body_key, [a0])))
+            return out
+
+        P["gc_ptr::GcPtr::as_ptr"] = erase
+        P["gc_ptr::GcPtr::from_ptr"] = erase
+        P["gc::GcStore::from_store"] = erase
+        P["gc::GcStore::to_store"] = erase
+        P["gc_ptr::GcPtr::as_ref"] = as_ref
+        P["core::cell::RefCell::borrow_mut"] = cell_store("RefCell::borrow_mut")
+        P["core::cell::RefCell::try_borrow_mut"] = cell_store("RefCell::try_borrow_mut")
+        P["core::cell::once::OnceCell::set"] = once_set
+        P["core::cell::once::OnceCell::get_or_init"] = once_get_or_init
         P["gc_ptr::GcPtr::header"] = header
         P["gc_ptr::GcPtr::erase"] = erase
         P["gc_ptr::GcPtr::addr_eq"] = addr_eq
